@@ -460,6 +460,55 @@ def check_parser(b, C, H1, F=None):
             probs.append(('heuristic-without-lookahead', 'the frame-marker heuristic is evaluated at %s without a dominating `remaining >= 4`: a complete message at the end of the data (nothing visible behind it) '
                           'that contains the marker bytes is rejected as corrupt' % b.loc(blk.term.sp)))
             break
+    # the scan for a second marker *inside* this message: every offset it probes lies before the end of the message
+    # (start + stdh.len).  A probe at or behind that end finds the marker of the next message and rejects a valid one.
+    loops_ = cfg.loops()
+    for blk in marker_calls:
+        if not any(blk.i in lb for lb in loops_.values()):
+            continue
+        arg = Ef.operand(blk.term.args[0])
+        S = None
+        top_ = arg
+        for _ in range(6):
+            if isinstance(top_, tuple) and top_[0] in ('ref', 'cast'):
+                top_ = top_[1]
+            elif isinstance(top_, tuple) and top_[0] == 'proj' and (len(top_) == 2 or all(p_ == '*' for p_ in top_[2:])):
+                top_ = top_[1]
+        if isinstance(top_, tuple) and top_[0] == 'call' and top_[1].endswith('::index') and len(top_[2]) > 1:
+            r_ = top_[2][1]
+            if isinstance(r_, tuple) and r_[0] == 'agg' and r_[1].endswith('RangeFrom::RangeFrom') and len(r_[2]) == 1:
+                S = r_[2][0]
+        if S is None:
+            probs.append(('heuristic-scan-unbounded', 'the scan probes %s at %s: cannot see the offset it starts at' % (show(arg)[:60], b.loc(blk.term.sp))))
+            continue
+        bounded = False
+        # (a) produced by iterating a..end with end == end of this message
+        top = S
+        while isinstance(top, tuple) and top[0] in ('cast', 'ref'):
+            top = top[1]
+        if isinstance(top, tuple) and top[0] == 'proj' and isinstance(top[1], tuple) and top[1][0] == 'call' and top[1][1].endswith('Iterator::next') and tuple(top[2:4]) == ('@Some', '.0'):
+            it = top[1][2][0]
+            for _ in range(8):
+                if isinstance(it, tuple) and it[0] == 'ref':
+                    it = it[1]
+                elif isinstance(it, tuple) and it[0] == 'proj' and len(it) == 2:
+                    it = it[1]
+                elif isinstance(it, tuple) and it[0] == 'call' and it[1].endswith('IntoIterator::into_iter') and it[2]:
+                    it = it[2][0]
+            if isinstance(it, tuple) and it[0] == 'agg' and it[1].endswith('Range::Range') and len(it[2]) == 2 and L.lin(it[2][1], at=blk.i) == want_end:
+                bounded = True
+        # (b) a dominating guard offset < end of this message
+        if not bounded:
+            for (c, truth, D) in guards.known(cfg, Ef, blk.i):
+                if truth in (True, False):
+                    c2, t2 = guards.normalise(c, truth)
+                    if t2 is True and isinstance(c2, tuple) and c2[0] == 'bin':
+                        lo, hi = (c2[2], c2[3]) if c2[1] == 'Lt' else ((c2[3], c2[2]) if c2[1] == 'Gt' else (None, None))
+                        if lo is not None and lo == S and L.lin(hi, at=blk.i) == want_end:
+                            bounded = True
+        if not bounded:
+            probs.append(('heuristic-scan-unbounded', 'the scan for a second frame marker probes offset %s at %s without that offset being bounded by the end of this message (%d + stdh.len): '
+                          'it can find the marker of the *next* message and reject a valid message as corrupt' % (show(S)[:50], b.loc(blk.term.sp), C)))
     if not marker_calls:
         probs.append(('heuristic-anchor', 'no use of is_*_header_pattern found (anchor lost)'))
     if probs:
